@@ -166,7 +166,7 @@ func runC16(c *core.Ctx) core.Meta {
 		}
 		st3.Instances++
 		pv := prov.Of(call.Call.Args[len(call.Call.Args)-1])
-		ok2 := regexp.MustCompile(`^recv\.bottomPort\.PeekIncoming\(\)\.(GetRspTo\(\)|RespondTo)$`).MatchString(pv)
+		ok2 := core.ProvMatch(regexp.MustCompile(`^recv\.bottomPort\.PeekIncoming\(\)\.(GetRspTo\(\)|RespondTo)$`), pv)
 		st3.Ob(ok2)
 		st3.Sample("%s: remove in-flight entry %s", core.FuncName(fn), pv)
 		if !ok2 {
